@@ -219,7 +219,7 @@ def run(ck):
     abort.check(ck, P, roots, "ABORT/c-api", abort_table.JUSTIFIED, api_fns=api, label="C API")
     validation(ck, P)
     from .. import condparity
-    ck.floor("SIB/ref-conditions", condparity.check(ck, P, "SIB/ref-conditions", only={"inflate.c:inflateValidate", "inflate.c:syncsearch", "compress.c:compress2", "uncompr.c:uncompress2", "deflate.c:deflateSetHeader", "deflate.c:deflateGetDictionary", "inflate.c:inflateGetDictionary", "deflate.c:deflatePending", "inflate.c:inflateMark", "deflate.c:deflateTune", "inflate.c:inflateCopy", "deflate.c:deflateCopy", "inflate.c:inflateResetKeep", "deflate.c:deflateReset", "deflate.c:deflateParams", "deflate.c:deflateInit2", "deflate.c:deflateSetDictionary", "deflate.c:deflatePrime", "deflate.c:deflateBound", "deflate.c:deflateResetKeep", "inflate.c:inflateReset2", "inflate.c:inflateInit2", "inflate.c:inflateSetDictionary", "inflate.c:inflatePrime", "inflate.c:inflateSync", "inflate.c:inflateSyncPoint", "inflate.c:inflateGetHeader", "inflate.c:inflate", "deflate.c:deflate"}), 80)
+    ck.floor("SIB/ref-conditions", condparity.check(ck, P, "SIB/ref-conditions", only={"deflate.c:deflateEnd", "inflate.c:inflateEnd", "inflate.c:inflateValidate", "inflate.c:syncsearch", "compress.c:compress2", "uncompr.c:uncompress2", "deflate.c:deflateSetHeader", "deflate.c:deflateGetDictionary", "inflate.c:inflateGetDictionary", "deflate.c:deflatePending", "inflate.c:inflateMark", "deflate.c:deflateTune", "inflate.c:inflateCopy", "deflate.c:deflateCopy", "inflate.c:inflateResetKeep", "deflate.c:deflateReset", "deflate.c:deflateParams", "deflate.c:deflateInit2", "deflate.c:deflateSetDictionary", "deflate.c:deflatePrime", "deflate.c:deflateBound", "deflate.c:deflateResetKeep", "inflate.c:inflateReset2", "inflate.c:inflateInit2", "inflate.c:inflateSetDictionary", "inflate.c:inflatePrime", "inflate.c:inflateSync", "inflate.c:inflateSyncPoint", "inflate.c:inflateGetHeader", "inflate.c:inflate", "deflate.c:deflate"}), 80)
     from .. import refwrites
     ck.floor("SIB/ref-writes", refwrites.check(ck, P, "SIB/ref-writes", only={"deflate.c:deflateParams", "deflate.c:deflateTune",
              "deflate.c:deflatePrime", "inflate.c:inflatePrime", "inflate.c:inflateSync", "deflate.c:deflateSetDictionary",
